@@ -196,10 +196,9 @@ def walk_own(root):
     while todo:
         n = todo.pop()
         yield n
-        for c in ast.iter_child_nodes(n):
-            if isinstance(c, (ast.Lambda, ast.FunctionDef, ast.AsyncFunctionDef, ast.ClassDef)):
-                continue
-            todo.append(c)
+        kids = [c for c in ast.iter_child_nodes(n)
+                if not isinstance(c, (ast.Lambda, ast.FunctionDef, ast.AsyncFunctionDef, ast.ClassDef))]
+        todo.extend(reversed(kids))      # pre-order, source order
 
 
 def default_may_raise(stmt_or_expr):
